@@ -200,6 +200,7 @@ class Interp:
         self.restarts = 0
         self.known_hits = []
         self.delivered_pending = []  # (box, MMsg, t) delivered, announcement due
+        self.delivered = set()  # (folder path, key) written by the MH agent
         self.blame = None  # (property, rule) to charge state divergence to
 
     # ------------------------------------------------------------------ util
@@ -413,6 +414,25 @@ class Interp:
                 self.V(
                     "C01", "view_differs_after_flush", session=sid, verb="NOOP", view=len(sess.view), server=len(got), mailbox=sess.selected,
                 )
+            # C13: everything an MH agent has put into the folder has been announced by now
+            # (unless it arrived in the very second the folder was last written: C13 conditions
+            # on the mtime having advanced, which one-second granularity cannot show then)
+            name = "inbox" if (sess.selected or "").lower() == "inbox" else sess.selected
+            path = os.path.join(self.maildir, name or "")
+            if self.delivered and os.path.isdir(path):
+                self.C("c13_disk_vs_view")
+                keys = [k for k in os.listdir(path) if k.isdigit()]
+                try:
+                    fm = int(max(os.stat(path).st_mtime, os.stat(os.path.join(path, ".mh_sequences")).st_mtime))
+                    newest = max((int(os.stat(os.path.join(path, k)).st_mtime) for k in keys if (path, k) in self.delivered), default=None)
+                except OSError:
+                    continue
+                if len(keys) > len(sess.view) and newest is not None and newest < fm:
+                    # give the poll (1-5 s) one more chance, then it is a miss
+                    await asyncio.sleep(6.0)
+                    r2 = await self.run_cmd(sess, ms, "NOOP")
+                    if r2.ok and sess.view is not None and len([k for k in os.listdir(path) if k.isdigit()]) > len(sess.view):
+                        self.V("C13", "delivery_not_announced", session=sid, verb="NOOP", view=len(sess.view), files=len(keys), mailbox=name, mode="concurrent")
 
     def waitfor_picture(self):
         out = {}
@@ -1601,6 +1621,7 @@ class Interp:
             with open(fn, "wb") as f:
                 f.write(corpus.build(op.get("shape", "plain"), tok))
             os.utime(fn, (date + i, date + i))
+            self.delivered.add((path, str(key)))
             new_keys.append(key)
             box.msgs.append(MMsg(None, tok, frozenset() if unseen else frozenset({"\\seen"}), date + i))
             box.msgs[-1].born = self.loop.time()
